@@ -5,11 +5,14 @@ import (
 	"go/ast"
 	"go/token"
 	"go/types"
+	"regexp"
 	"sort"
 	"strings"
 
 	"golang.org/x/tools/go/types/typeutil"
 )
+
+var resultIndexRe = regexp.MustCompile(`\)#\d$`)
 
 // argShape renders an operand of a guard call in a way that is stable under renaming of locals
 // and under caching a value in a local: constants by value, fields by name, parameters by
@@ -54,6 +57,11 @@ func (u *Unit) argShape(e ast.Expr, at ast.Node, depth int) string {
 								if hs := u.helperResultShape(d.rhs, i, depth); hs != "" {
 									return hs
 								}
+								if u.aliasHops < 10 {
+									u.aliasHops++
+									defer func() { u.aliasHops-- }()
+									return u.argShape(d.rhs, d.node, depth) + "#" + itoa(i)
+								}
 								return u.argShape(d.rhs, d.node, depth+1) + "#" + itoa(i)
 							}
 						}
@@ -61,8 +69,9 @@ func (u *Unit) argShape(e ast.Expr, at ast.Node, depth int) string {
 					if hs := u.helperResultShape(d.rhs, 0, depth); hs != "" {
 						return hs
 					}
-					// a plain copy of another variable (`size := n`) costs no depth
-					if _, isAlias := ast.Unparen(d.rhs).(*ast.Ident); isAlias && u.aliasHops < 6 {
+					// following a local to its only definition costs no depth: `x := f(); g(x)` is `g(f())`; the depth
+					// budget counts the nesting of the expanded expression only (hop guard against pathological chains)
+					if u.aliasHops < 10 {
 						u.aliasHops++
 						defer func() { u.aliasHops-- }()
 						return u.argShape(d.rhs, d.node, depth)
@@ -137,15 +146,9 @@ func (u *Unit) argShape(e ast.Expr, at ast.Node, depth int) string {
 				// method chains are bounded by syntax: walking down the receiver chain costs no depth; only
 				// following a local variable to its definition does
 				nd := depth
-				if id, isIdent := ast.Unparen(f.X).(*ast.Ident); isIdent {
-					// parameters, fields and package variables render without following anything
-					if v, ok := u.Info.Uses[id].(*types.Var); !ok || !(v.IsField() || u.paramShape(v) != "" || (v.Pkg() != nil && v.Parent() == v.Pkg().Scope())) {
-						nd = depth + 2
-					}
-				}
 				if nd < 5 {
 					base := u.argShape(f.X, at, nd)
-					if strings.HasPrefix(base, ".") || strings.HasSuffix(base, ")") || strings.HasPrefix(base, "$") {
+					if strings.HasPrefix(base, ".") || strings.HasSuffix(base, ")") || strings.HasPrefix(base, "$") || resultIndexRe.MatchString(base) {
 						name = base + "." + name
 					}
 				}
@@ -689,7 +692,9 @@ func (u *Unit) helperResultShape(e ast.Expr, idx, depth int) string {
 	if hd == nil || hd == u.Fn {
 		return ""
 	}
-	if f.Exported() && !u.eng.isNewFunc(f) && !isOneLiner(hd) {
+	// exported functions the references know are API boundaries; only their getters (`return r.f`) are seen through
+	gettersOnly := f.Exported() && !u.eng.isNewFunc(f)
+	if gettersOnly && !isOneLiner(hd) {
 		return ""
 	}
 	hu := u.eng.UnitOf(hd)
@@ -733,6 +738,9 @@ func (u *Unit) helperResultShape(e ast.Expr, idx, depth int) string {
 				}
 			}
 		}
+	}
+	if gettersOnly {
+		return "" // e.g. `Quorum()` building a set from a field: the call itself says more than its body
 	}
 	// the helper is transparent: its return expression is rendered with the depth budget of the call site
 	u.eng.helperNest++
